@@ -237,6 +237,9 @@ def programs(tier, rng):
         steps = [trees.as_constraint(rng, trees.random_tree(rng, rng.choice("BI"), rng.randint(1, 3))) for _ in range(rng.randint(1, 3))]
         out.append({"kind": "tree", "order": rng.choice(["bbii", "ibib", "iibb"]), "doms": [(0, 2), (-1, 1)], "steps": steps,
                     "keymask": rng.randrange(16)})
+    for k in range(6):
+        steps = [trees.as_constraint(rng, trees.random_tree(rng, "B", 2))]
+        out.append({"kind": "tree", "order": "ibib", "doms": [(2, 1), (0, 1)] if k % 2 else [(0, 1), (5, 3)], "steps": steps, "keymask": rng.randrange(16)})
     graphs_ = [(3, [(0, 1), (1, 2)]), (4, [(0, 1), (1, 2), (2, 3), (3, 0)]), (4, [(0, 1), (2, 3)]), (3, [(0, 1), (0, 1), (1, 2), (2, 0)])]
     for n, es in graphs_:
         for kind in ("connected", "division", "cycle", "borders"):
